@@ -1,6 +1,7 @@
 import Uquic.Oracle.Frame
 import Uquic.Model.UQuic.QTP
 import Uquic.Spec.QtpMon
+import Uquic.Model.UQuic.FrameKinds
 
 /-!
 Oracle for the `qtp` driver (property C11). Ops (see harness/drivers/qtp/qtp_test.go):
@@ -20,7 +21,7 @@ Random parts (GREASE ids/values drawn by uTLS, shuffle draws, everything of a re
 from the implementation's output as witnesses and validated; the model then has to reproduce the text.
 -/
 
-open Uquic.Oracle Uquic.Model.QTP Uquic.Spec.QtpMon
+open Uquic.Oracle Uquic.Model.QTP Uquic.Spec.QtpMon Uquic.Model.FrameKinds
 
 /-- a parameter with the byte mask of its re-drawn GREASE-version slots -/
 structure TP where
@@ -220,8 +221,18 @@ def recorded (base : String) : Bool :=
 
 def setMinus (a b : List Nat) : List Nat := a.filter (!b.contains ·)
 
-def pingClass (f1 f2 : List Nat) : String :=
-  if (f1.contains 1 != f2.contains 1) && setMinus f1 [1] == setMinus f2 [1] then "frameset_without_ping" else "-"
+/-- PING bounds of the base spec's random frame builder (regenerated from u_parrot.go) -/
+def pingBounds (base : String) : Option (Nat × Nat) :=
+  (Uquic.Gen.UQuic.randomFramePing.find? fun b => b.1 == base).map (·.2)
+
+/-- the listed finding applies only while the base spec's own bounds allow both zero and some PING frames -/
+def pingUnstable (base : String) : Bool :=
+  match pingBounds base with
+  | some (mn, mx) => !pingStableB mn mx
+  | none => false
+
+def pingClass (base : String) (f1 f2 : List Nat) : String :=
+  if pingUnstable base && (f1.contains 1 != f2.contains 1) && setMinus f1 [1] == setMinus f2 [1] then "frameset_without_ping" else "-"
 
 /-! ### steps -/
 
@@ -489,13 +500,19 @@ def stepDial (s : St) (impl : String) : St × StepOut :=
   let stab := if !judged then [] else match ref with
     | none => []
     | some (_, rfp, rframes, rview) =>
-      failIf (fp != "-" && rfp != "-" && fp != rfp) "fingerprint_stable" (pingClass frames rframes)
+      failIf (fp != "-" && rfp != "-" && fp != rfp) "fingerprint_stable" (pingClass s.base frames rframes)
         s!"fingerprint {fp} (frame types {fmtNats frames}), an earlier dial of the same spec gave {rfp} (frame types {fmtNats rframes})" ++
       failIf (view != rview) "canonical_view_stable" "-" s!"{view} vs {rview}"
   let rec_ :=
     failIf (!s.custom && s.sup.isEmpty && recorded s.base && fp != "-" && fp != s.want) "fingerprint_recorded"
-      (if !frames.contains 1 && s.base.startsWith "QUICChrome_115" then "frameset_without_ping" else "-")
+      (if !frames.contains 1 && pingUnstable s.base then "frameset_without_ping" else "-")
       s!"clienthellod computes {fp}, {s.base} records {s.want} (frame types {fmtNats frames})"
+  let kinds := match pingBounds s.base with
+    | some (mn, mx) =>
+      failIf (pingStableB mn mx && frames.contains 1 != decide (1 ≤ mn)) "frame_kinds_possible" "-"
+        s!"frame types {fmtNats frames} but the spec draws its PING count from [{mn},{mx})" ++
+      failIf (!frames.contains 6) "frame_kinds_possible" "-" s!"no CRYPTO frame: {fmtNats frames}"
+    | none => failIf (!frames.contains 6) "frame_kinds_possible" "-" s!"no CRYPTO frame: {fmtNats frames}"
   let refs := if ref.isNone && judged then (s.key, fp, frames, view) :: s.refs else s.refs
   let g := { s with dials := s.dials + 1, refs := refs }
   let tags := ["dial", if s.dials == 0 then "dial:fresh-spec" else "dial:reused-spec"] ++
@@ -505,7 +522,7 @@ def stepDial (s : St) (impl : String) : St × StepOut :=
     (if s.tpids.isSome then ["dial:after-tpids"] else []) ++
     (if !scid.isEmpty then ["dial:scid"] else []) ++
     (if fp != "-" && !s.custom && s.sup.isEmpty && recorded s.base then ["dial:fp-checked"] else [])
-  (g, { model := impl, tags := tags, fails := wireFails ++ recFails ++ plumbing ++ stab ++ rec_ })
+  (g, { model := impl, tags := tags, fails := wireFails ++ recFails ++ plumbing ++ stab ++ rec_ ++ kinds })
 
 def stepDist (name nS NS impl : String) : StepOut :=
   let n := natOf nS
